@@ -47,6 +47,17 @@ def special_cases(rng):
         {"op": "concat_rows", "src": T, "b": T, "id_column": "src", "a_name": "x", "b_name": "y"},
         {"op": "order_rows", "src": {"op": "select_columns", "src": T, "columns": ["uid", "b"]}, "columns": ["uid"], "reverse": ["uid"], "limit": 2},
     ]
+    tw = dict(t, extra=[["zz_undeclared", "int", [7] * len(t["rows"])]])         # stored table wider than its description
+    shapes_w = [{"op": "order_rows", "src": T, "columns": ["uid"], "reverse": [], "limit": None},
+                {"op": "order_rows", "src": T, "columns": ["k", "uid"], "reverse": ["k"], "limit": 2},
+                {"op": "select_rows", "src": T, "expr": "k >= 0"}, {"op": "drop_columns", "src": T, "columns": ["a"]},
+                {"op": "rename_columns", "src": T, "map": {"q": "a"}}, {"op": "concat_rows", "src": T, "b": T, "id_column": None, "a_name": "x", "b_name": "y"},
+                {"op": "natural_join", "src": T, "b": T, "on": ["uid"], "jointype": "INNER"}]
+    for s in shapes_w:
+        try:
+            out.append(X.Case(s, [tw], pipes.build(s, {"d1": tw})))
+        except Exception:
+            pass
     for tab in (t, t0):
         for s in shapes:
             try:
@@ -67,7 +78,7 @@ def run(chk):
     chk.assumptions = ["the tables bound in the environment have at least the declared columns (TableDescription selects them)",
                        "backends that raise are not counted as violations of C08 (raising is not returning wrong columns)"]
     chk.cov["rule"] = ("random pipelines depth 1..4 (quick) / 1..6 (thorough) over 2 random tables (0..8 rows, nulls, duplicates; 15% of cases with "
-                       "all tables empty) built through the public API, plus 24 hand-shaped corner pipelines (every non-key column replaced / dropped, "
+                       "all tables empty; 40% of stored tables carry a column their description does not declare) built through the public API, plus 31 hand-shaped corner pipelines (every non-key column replaced / dropped, "
                        "empty input); each evaluated on Pandas, SQLite, PostgreSQL-text-on-SQLite, Polars eager and lazy; non-trivial = depth >= 2; distinct by script+tables")
     cases = []
     for f in sorted(glob.glob(os.path.join(lib.ROOT, "corpus", "C08", "*.json"))):
@@ -77,8 +88,8 @@ def run(chk):
             chk.dist("corpus_unreadable")
     cases += special_cases(rng)
     n = N[chk.tier]
-    while len(cases) < n + 24:
-        c = X.gen_case(rng, depth=(1, 4) if chk.tier == "quick" else (1, 6), nrows=0 if rng.random() < 0.15 else None)
+    while len(cases) < n + 31:
+        c = X.gen_case(rng, depth=(1, 4) if chk.tier == "quick" else (1, 6), nrows=0 if rng.random() < 0.15 else None, extra_rate=0.4)
         if c is not None:
             cases.append(c)
     items = []
